@@ -126,12 +126,12 @@ def from_kani(h, pb, scratch):
     return {'kind': 'eval', 'input': inp, 'expr': expr, 'binds': binds, 'observed': (out or ['replay build failed'])[0], 'expected': h.get('doc', '')}
 
 
-def search(prop, failure, scratch, seed):
+def search(prop, failure, scratch, seed, panic_only=False):
     try:
         import witness_pools
     except ImportError:
         return None
-    return witness_pools.search(prop, failure, scratch, seed, run_lines, hx)
+    return witness_pools.search(prop, failure, scratch, seed, run_lines, hx, panic_only=panic_only)
 
 
 def rerun(doc):
